@@ -40,7 +40,7 @@ Print Assumptions C08_plan_needs_regions.
        quotas met exactly (and no host from a region outside the specification), every request
        of the block carries the same member list and the same address list = the hosts of the block
        in member order, launch flags, and passes validateNodeHostRequest.
-       Preconditions: what server.validateChange admits for shard definitions and the NodeHost
+       Preconditions: what server.validateChange accepts for shard definitions and the NodeHost
        table being a map keyed by non-empty addresses. *)
 Theorem C08_valid : forall ttl tick fleet shards r ds qs,
   go_sized shards -> Forall wf_shard shards -> wf_fleet fleet ->
@@ -81,6 +81,14 @@ Theorem C08_can_finish : forall ttl tick fleet shards regs ds,
   go_sized shards -> exists e, launch ttl tick fleet shards regs (ds ++ e) <> OutOfDraws.
 Proof. exact launch_can_finish. Qed.
 Print Assumptions C08_can_finish.
+
+(** 5'. The selection loop is set-valued: it returns distinct candidate indices (used by C08_valid) and
+        every ordered choice of distinct candidates is returned for some values of the random source. *)
+Theorem C08_any_selection_possible : forall n sl,
+  NoDup sl -> Forall (fun i => i < n) sl ->
+  pick_loop n (Z.of_nat (length sl)) [] sl = PDone sl [].
+Proof. exact pick_any_selection. Qed.
+Print Assumptions C08_any_selection_possible.
 
 (** 6. What "live" means ([host_live] is the uint64 expression of liveFilter). *)
 Theorem C08_live_past : forall ttl tick h,
